@@ -87,7 +87,7 @@ chk("C18", "exploration",
 chk("C19", "exploration",
     "Cli.tla defines every sub-command as an operator on abstract archives (filter with the store's de-duplication, append, index, list, get-block, concat) with closure predicates; all TLC-enumerated "
     "archives are run through the built car binary, outputs compared with the reference encoding of the operator's result, and every emitted archive checked with car inspect --full / car verify.",
-    "All sub-commands on all bounded archives; filter flag combinations sampled. " + TB,
+    "All sub-commands on all bounded archives; filter flag combinations sampled; get-dag on all DAGs over 3 nodes (4: sampled / thorough all) x selectors x missing blocks x --strict against Traversal.tla. " + TB,
     "TLA+ operators as oracle + real CLI runs with closure under the tool's own verifier", "DESIGN.md §3 C19")
 chk("C15", "model_checking",
     "Traversal.tla is an explicit DFS machine (selector, visit-once, link budget) over all small DAGs; its predicted load sequence agrees with the real engine (drift check) and every case is run through all "
